@@ -1946,6 +1946,18 @@ PROPOSED = {
                 'tree applied directly does reach the target',
         'replay': 'A: module default { type P { property x -> int64 { default := (1); }; }; type Ch extending default::P '
                   '{ overloaded property x -> int64 { default := (5); }; }; }  B: the same with `overloaded property x -> int64;`'},
+    'C02-move-to-parent-reowned': {
+        'property': 'C02',
+        'site': 'edb/schema/ordering.py::linearize_delta (splits the child\'s ALTER) + edb/schema/pointers.py / referencing.py '
+                '(ALTER LINK p { RESET TYPE } on an inherited, no longer owned pointer marks it owned again)',
+        'predicate': 'a pointer is moved from a child type to its parent (child: DROP OWNED, RESET TYPE) in a migration that also '
+                     'changes the bases of a sibling, so that the script places `ALTER LINK p { RESET TYPE; }` of the child in a '
+                     'later statement than `ALTER LINK p { DROP OWNED; }`',
+        'what': 'after COMMIT the child\'s pointer is still `owned` (the target\'s is purely inherited); delta_schemas(result, '
+                'target) = `alter type Child { alter link p { DROP OWNED; }; }` again; the raw tree applied directly reaches the target',
+        'replay': 'A: module default { type User; type Comment extending default::User { link peer -> default::User; }; type Doc '
+                  'extending default::User; }  B: module default { type User { link peer -> default::User; }; type Comment extending '
+                  'default::User; type Org; type Doc extending default::User, default::Org; }'},
     'C02-tree-form-bookkeeping': {
         'property': 'C02',
         'site': 'edb/schema/delta.py DeltaRoot.apply of the tree returned by delta_schemas (functions.py RenameCallableObject, '
@@ -2024,6 +2036,12 @@ def classify_monitor(form, cmpres, mon, a_text, b_text, script):
             and any(f == 'default' for _, f in items) and 'overloaded' in a_text and 'overloaded' in b_text \
             and (form == 'text' or cmpres.get('own_diff') == ''):
         return 'C02-drop-overloaded-default'
+    if form in ('commit', 'text') and items and items <= {('Link', 'owned'), ('Property', 'owned')} and script \
+            and (form == 'text' or 'drop owned' in (cmpres.get('own_diff') or '').lower()):
+        up = script.upper()
+        i = up.find('DROP OWNED')
+        if i >= 0 and up.find('RESET TYPE', i) > i:
+            return 'C02-move-to-parent-reowned'
     if form in ('commit', 'text') and 'drop extending' in (cmpres.get('own_diff') or '').lower() \
             and script and 'DROP EXTENDING' in script.upper() and 'RENAME TO' in script.upper():
         import re
